@@ -504,6 +504,52 @@ def _callers(f, path):
     return f._callers_idx.get(path, [])
 
 
+def _project(g, op, proj, depth):
+    """leaves [(block, operand)] of `op.proj` where op is built from aggregates: follows whole-local copies and ALL definitions of a local;
+    a definition that is an aggregate of another variant than the projection asks for, or the result of from_residual (the Break path), cannot
+    be the value read there and contributes nothing ([] = no definition can be read that way); anything unreadable -> None (nothing proven)"""
+    if depth > 8 or op["k"] not in ("Copy", "Move"):
+        return None
+    pl = op["place"]
+    if [e for e in pl["proj"] if e["k"] != "Deref"]:
+        return None
+    ds = g.defs.get(pl["local"], [])
+    if not ds or 1 <= pl["local"] <= g.body["arg_count"]:
+        return None
+    out = []
+    for dbi, si, rv in ds:
+        if dbi not in g.reach:
+            continue
+        k = rv["k"]
+        if k == "CallResult":
+            if mir.callee_name(rv["term"]) == "from_residual" and proj[0] == "@Ok":
+                continue
+            return None
+        if k == "Use" and rv["op"]["k"] in ("Copy", "Move"):
+            sub = _project(g, rv["op"], proj, depth + 1)
+            if sub is None:
+                return None
+            out += sub
+            continue
+        if k == "Aggregate" and rv.get("agg") == "Adt" and proj and proj[0].startswith("@") and len(proj) >= 2:
+            if "@" + rv["variant"] != proj[0]:
+                continue
+            names = rv.get("field_names") or []
+            if proj[1] not in names:
+                return None
+            o2 = rv["ops"][names.index(proj[1])]
+            if len(proj) == 2:
+                out.append((dbi, o2))
+            else:
+                sub = _project(g, o2, proj[2:], depth + 1)
+                if sub is None:
+                    return None
+                out += sub
+            continue
+        return None
+    return out
+
+
 def _arg_validated(f, p, b, g, bi, a, depth):
     """operand `a` at block `bi` of body `b` is known to be in [0,1]: (a) is_in_01 succeeded on it on a dominating edge, (b) it is the
     Continue payload of try_validate_01(..)?, or (c) it is a parameter of a non-public function and EVERY call of that function in the
@@ -520,6 +566,13 @@ def _arg_validated(f, p, b, g, bi, a, depth):
             continue
         br = g.bool_branch(ci)
         if br and (br[0] == bi or g.dominates(br[0], bi)):
+            return True
+    # (d) the value is a projection of a local that is built as an aggregate on several paths (the return place of a spliced helper:
+    # `match next_valid(..)? { Some(p) => p, .. }` reads `branch(_r)@Continue.0.@Some.0` with `_r = Ok(Some(x))` | `Ok(None)` | from_residual(..)):
+    # every definition that can have that shape must carry a validated value there, and at least one does
+    if cur[0] == "call" and mir.callee_name(cur[1]) == "branch" and pth[:2] == ["@Continue", "0"] and depth < 3:
+        leaves = _project(g, cur[1]["args"][0], ["@Ok", "0"] + pth[2:], 0)
+        if leaves and all(_arg_validated(f, p, b, g, lb, lo, depth + 1) for lb, lo in leaves):
             return True
     if r[0] == "arg" and not pth and depth < 3 and "Public" not in str(b.get("vis")):
         cs = _callers(f, p)
